@@ -255,6 +255,6 @@ def run(tier, seed):
 MANIFEST = {
     "engine": "G",
     "technique": "stateless model checking of the real uploader against ground truth on disk: exhaustive server-kind grid at the default schedule, all delivery orders / early timeouts / injected faults within bounds on representative grids",
-    "text": "Uploads run through the real Uploader/Encoder onto real storage servers of every kind mix; after each execution the share files on disk are compared with a reference encoding and the reported share map, a brute-force maximum matching is compared with the happiness threshold, and leftovers (incoming files, reservations) are checked.",
+    "text": "Uploads run through the real Uploader/Encoder onto real storage servers of every kind mix; after each execution the share files on disk are compared with a reference encoding and the reported share map, a brute-force maximum matching is compared with the happiness threshold, and leftovers (incoming files, reservations) are checked. Also every assignment of servers that hold shares AND are full (duplicate pre-existing shares that cannot be complemented) on 3 servers.",
     "note": "Single small file; bounds (d, f) in evidence; correctness of a share = equality of its data region with an independently prepared encoding.",
 }
